@@ -63,6 +63,27 @@ VERUS = [dict(
         dict(file=FI, path=[NI, "fn values"], wrap=NI, ret="r",
              contract="""    ensures r is None <==> *self is Null, r is Some ==> (*self matches NullableInterval::MaybeNull { values } && *r->Some_0 == values)
                                                          || (*self matches NullableInterval::NotNull { values } && *r->Some_0 == values),"""),
+        dict(file=FI, path=[NI, "fn is_true_false_unknown"], wrap=NI, ret="r",
+             edits=[dict(rule="R3", find="Result<(bool, bool, bool), DataFusionError>", replace="Result<(bool, bool, bool)>")],
+             contract="""    requires tv(*self),
+    ensures r is Ok, r->Ok_0.0 == has(ni_mask(*self), 4), r->Ok_0.1 == has(ni_mask(*self), 1), r->Ok_0.2 == has(ni_mask(*self), 2),""",
+             proofs=[dict(at="body_start", text="""
+        proof { lemma_mask_determines(*self); }""")]),
+        dict(file=FI, path=[NI, "fn is_true"], wrap=NI, ret="r",
+             contract="""    requires tv(*self),
+    ensures r is Ok, tv(r->Ok_0), exact_test(4, ni_mask(*self), ni_mask(r->Ok_0)),""",
+             proofs=[dict(at="body_start", text="""
+        proof { lemma_named_sets(); lemma_mask_determines(*self); }""")]),
+        dict(file=FI, path=[NI, "fn is_false"], wrap=NI, ret="r",
+             contract="""    requires tv(*self),
+    ensures r is Ok, tv(r->Ok_0), exact_test(1, ni_mask(*self), ni_mask(r->Ok_0)),""",
+             proofs=[dict(at="body_start", text="""
+        proof { lemma_named_sets(); lemma_mask_determines(*self); }""")]),
+        dict(file=FI, path=[NI, "fn is_unknown"], wrap=NI, ret="r",
+             contract="""    requires tv(*self),
+    ensures r is Ok, tv(r->Ok_0), exact_test(2, ni_mask(*self), ni_mask(r->Ok_0)),""",
+             proofs=[dict(at="body_start", text="""
+        proof { lemma_named_sets(); lemma_mask_determines(*self); }""")]),
         dict(file=FI, path=[NI, "fn not"], wrap=NI, ret="r",
              edits=[dict(rule="R9", regex=r"assert_eq_or_internal_err!\(\s*datatype,\s*&DataType::Boolean,\s*\"[^\"]*\"\s*\);",
                          replace="if *datatype != DataType::Boolean { return make_err(); }", count=1)],
@@ -88,6 +109,9 @@ VERUS = [dict(
         dict(name="nullable_or_tests_false", item="or", find="contains_value(ScalarValue::Boolean(Some(true)))", replace="contains_value(ScalarValue::Boolean(Some(false)))"),
         dict(name="nullable_and_shortcut_needs_both", item="and", find="if self == &Self::FALSE || rhs == &Self::FALSE {", replace="if self == &Self::FALSE && rhs == &Self::FALSE {"),
         dict(name="nullable_not_of_unknown_is_true", item="not", find="Ok(Self::UNKNOWN)", replace="Ok(Self::TRUE)"),
+        dict(name="is_true_ignores_unknown", item="is_true", find="(true, false, false) => Ok(Self::TRUE),", replace="(true, false, _) => Ok(Self::TRUE),"),
+        dict(name="is_unknown_inverted", item="is_unknown", find="(_, _, false) => Ok(Self::FALSE),", replace="(_, _, false) => Ok(Self::TRUE),"),
+        dict(name="maybe_null_reported_not_null", item="is_true_false_unknown", find="?,\n                true,\n            ),", replace="?,\n                false,\n            ),"),
     ],
 )]
 TRUSTED = ["Kani 0.68 / CBMC 6.11 (IEEE-754 comparison semantics of CBMC's float theory)",
